@@ -367,11 +367,11 @@ func (t tableDef) mapperVal() vh.Val {
 
 // rows: images as lists of cell values (absent | null | value)
 type rowsDef struct {
-	kind     int // 0 write 1 update 2 delete
-	flags    uint16
-	extra    []byte
-	before   [][]vh.Val
-	after    [][]vh.Val
+	kind                  int // 0 write 1 update 2 delete
+	flags                 uint16
+	extra                 []byte
+	before                [][]vh.Val
+	after                 [][]vh.Val
 	nullsSeen, absentSeen bool
 }
 
